@@ -754,7 +754,11 @@ func (c *frCtx) class(p frProv) string {
 	return "Unrecognised"
 }
 
-func frOneLine(n ast.Node) string { return strings.Join(strings.Fields(src(n)), " ") }
+// one line of source; comment delimiters of Coq are broken up so that they never occur inside a string
+func frOneLine(n ast.Node) string {
+	s := strings.Join(strings.Fields(src(n)), " ")
+	return strings.ReplaceAll(strings.ReplaceAll(s, "(*", "( *"), "*)", "* )")
+}
 
 func (c *frCtx) emit(kind string, target ast.Expr, class string) {
 	*c.writes = append(*c.writes, frWrite{c.fn, kind, frOneLine(target), class})
@@ -1232,11 +1236,8 @@ func frFuncName(p *frPkg, fd *ast.FuncDecl) (string, string) {
 		pn = "expr"
 	}
 	if fd.Recv != nil && len(fd.Recv.List) == 1 {
-		t := fd.Recv.List[0].Type
-		bn := frBaseName(t)
-		if _, ok := t.(*ast.StarExpr); ok {
-			return pn + ".(*" + bn + ")." + fd.Name.Name, bn + "." + fd.Name.Name
-		}
+		// pointer and value receivers alike: "vm.VM.Run" (no "(*" inside Coq strings)
+		bn := frBaseName(fd.Recv.List[0].Type)
 		return pn + "." + bn + "." + fd.Name.Name, bn + "." + fd.Name.Name
 	}
 	return pn + "." + fd.Name.Name, fd.Name.Name
@@ -1332,7 +1333,7 @@ func genFrame() {
 	frPkgs = map[string]*frPkg{}
 	frUnrec = nil
 	var b strings.Builder
-	b.WriteString("(* GENERATED by /verif/translator (gen_frame.go) from vm/*.go and the packages of the compile path — do not edit *)\n")
+	b.WriteString("(* GENERATED by /verif/translator (gen_frame.go) from the vm package and the packages of the compile path — do not edit *)\n")
 	b.WriteString("From Coq Require Import List String.\nImport ListNotations.\nOpen Scope string_scope.\n\n")
 	b.WriteString("(* class of the ROOT of a written location *)\n")
 	b.WriteString("Inductive wclass := VmLocal | PerCall | PerCallArg | ProgramShared | PackageLevel | EnvReachable | Unrecognised.\n")
@@ -1365,7 +1366,7 @@ func genFrame() {
 		}
 	}
 	sort.Strings(run.fns)
-	b.WriteString("(* (a) functions of package vm reachable from Run / (*VM).Run, and every write in them *)\n")
+	b.WriteString("(* (a) functions of package vm reachable from Run / VM.Run, and every write in them *)\n")
 	fmt.Fprintf(&b, "Definition run_functions : list string := %s.\n\n", frCoqList(run.fns))
 	frEmitWrites(&b, "run_writes", run.writes)
 	sort.Strings(run.reflMut)
